@@ -79,3 +79,70 @@ def make_env(nondeterministic=False, max_recursion_depth=None, min_int=None, max
 
 def loc_jsonable(loc):
     return list(loc)
+
+
+# ---------------------------------------------------------------------------------------------------------------
+# ambient process state and object lifetime (round-3 dimensions)
+import contextlib  # noqa: E402
+
+
+@contextlib.contextmanager
+def default_env_sandbox():
+    """Let a case reconfigure the package's DEFAULT_ENV / the JSONPathEnvironment class and put everything back."""
+    env = jp.DEFAULT_ENV
+    reg = env.function_extensions
+    saved_reg = list(reg.items())
+    saved_inst = dict(env.__dict__)
+    names = ("max_int_index", "min_int_index", "max_recursion_depth", "nondeterministic")
+    saved_cls = {n: JSONPathEnvironment.__dict__[n] for n in names if n in JSONPathEnvironment.__dict__}
+    try:
+        yield env
+    finally:
+        for n in names:
+            if n in saved_cls:
+                setattr(JSONPathEnvironment, n, saved_cls[n])
+            elif n in JSONPathEnvironment.__dict__:
+                delattr(JSONPathEnvironment, n)
+        for k in list(env.__dict__):
+            if k not in saved_inst:
+                del env.__dict__[k]
+        env.__dict__.update(saved_inst)
+        reg = env.function_extensions
+        reg.clear()
+        for k, v in saved_reg:
+            reg[k] = v
+
+
+def at_depth(n, fn):
+    """Call fn() with n extra Python frames below it (an application made from deep inside a host program)."""
+    if n <= 0:
+        return fn()
+    return at_depth(n - 1, fn)
+
+
+AMBIENTS = ("default", "decimal-prec-3", "decimal-prec-6-floor", "decimal-prec-1-traps", "decimal-prec-50")
+
+
+@contextlib.contextmanager
+def ambient(kind):
+    """Process-wide settings a host application may have changed and that the package never documents depending
+    on: the thread's decimal context.  Everything is restored on exit."""
+    import decimal
+    if kind in (None, "default"):
+        yield
+        return
+    with decimal.localcontext() as ctx:
+        if kind == "decimal-prec-3":
+            ctx.prec = 3
+        elif kind == "decimal-prec-6-floor":
+            ctx.prec = 6
+            ctx.rounding = decimal.ROUND_FLOOR
+        elif kind == "decimal-prec-1-traps":
+            ctx.prec = 1
+            ctx.traps[decimal.Inexact] = True
+            ctx.traps[decimal.Rounded] = True
+        elif kind == "decimal-prec-50":
+            ctx.prec = 50
+            ctx.Emax = 99
+            ctx.Emin = -99
+        yield
